@@ -257,6 +257,7 @@ class _Tokenizer:
 
         cur_span_symbol = None
         cur_span_start_text = None
+        cur_span_start_pos = None
         cur_span_lines = None
         span_body_matcher = None
 
@@ -283,9 +284,10 @@ class _Tokenizer:
                         yield _Token(
                             token_name,
                             value,
-                            prev_end_pos, new_end_pos,
+                            cur_span_start_pos, new_end_pos,
                         )
                         prev_end_pos = new_end_pos
+                        cur_span_start_pos = None
                         cur_span_symbol = None
                         cur_span_start_text = None
                         cur_span_lines = None
@@ -298,6 +300,12 @@ class _Tokenizer:
                         raise LexicalError(SrcPos(src_name, line_id, col), text_line)
                     token_name = match.lastgroup
                     value = match.group(token_name)
+                    # the token starts where it was matched. (Usually it is
+                    # the end of the previous token, same object is used then)
+                    if prev_end_pos.coords == (line_id, match.start() + 1):
+                        start_pos = prev_end_pos
+                    else:
+                        start_pos = SrcPos(src_name, line_id, match.start() + 1)
 
                     span_body_matcher = self.span_matchers.get(token_name)
                     if span_body_matcher is not None:
@@ -305,6 +313,7 @@ class _Tokenizer:
                         # like opening of a comment '/*'.
                         cur_span_symbol = token_name
                         cur_span_start_text = text_line
+                        cur_span_start_pos = start_pos
                         cur_span_lines = []
                     else:
                         token_name = self.synonyms.get(token_name, token_name)
@@ -316,7 +325,7 @@ class _Tokenizer:
                         yield _Token(
                             token_name,
                             value,
-                            prev_end_pos, new_end_pos,
+                            start_pos, new_end_pos,
                         )
                         prev_end_pos = new_end_pos
                     col = match.end()
